@@ -353,137 +353,176 @@ let run_sched kvs ikvs =
   let trace = List.filter_map (fun x -> match String.split_on_char ':' x with
       | [t; e; m; a; b] -> Some { th = int_of_string t; evk = int_of_string e; mu = int_of_string m; a = int_of_string a; b = int_of_string b }
       | _ -> None) (String.split_on_char ',' (get_or ikvs "trace" "")) in
-  let nthreads = List.fold_left (fun m e -> max m (e.th + 1)) (nw + 2) trace in
-  (* programs reconstructed from the case (call structure of the writers) and the trace (frames per message; for the
-     pinger, the closer and the library's own goroutines: one call per acquisition of writeFrameMu) *)
-  let progs = Array.make nthreads [] in
-  for t = 0 to nthreads - 1 do
-    if t < nw then begin
-      let fr = List.filter_map (fun e -> if e.th = t && e.evk = 5 then Some (e.a, e.b) else None) trace in
-      let calls = ref [] and cur = ref 0 in
-      List.iter (fun (opc, fin) -> if opc <= 2 then (if fin = 1 then (calls := CMsg (nat_of_int !cur, O) :: !calls; cur := 0) else incr cur)) fr;
-      if !cur > 0 then calls := CMsg (nat_of_int (!cur + 1), O) :: !calls;   (* a message cut off before its final frame *)
-      let l = List.rev !calls in
-      let extra = max 0 (List.length (List.nth plans t) - List.length l) in
-      progs.(t) <- l @ List.init extra (fun _ -> CMsg (O, O))
-    end else begin
-      let calls = ref [] and pending = ref false and kind = ref (-1) in
-      (* a Close frame (or a refused, unidentified frame) by the user's closer is Close; by a goroutine of the library it is the echo of the peer's Close *)
-      let flush () = if !pending then (calls := (if !kind = 9 || !kind = 10 then CPing O else if t = nw + 1 then CClose O else CEcho O) :: !calls; pending := false; kind := -1) in
-      List.iter (fun e -> if e.th = t then begin
-        if e.evk = 1 && e.mu = 3 then (flush (); pending := true)
-        else if e.evk = 5 then kind := e.a
-        else if e.evk = 2 && e.mu = 3 then flush ()
-      end) trace;
-      flush ();
-      progs.(t) <- List.rev !calls
-    end
-  done;
-  (* a goroutine that closed the connection without writing a Close frame first performs CCloseNow (user CloseNow / Close whose frame was refused) *)
-  let st = ref (init (role = Client) (fun t -> let t = int_of_nat t in if t < nthreads then progs.(t) else [])) in
-  let err = ref "" in
-  let fail m = if !err = "" then err := m in
-  let phase_of t = (!st.thrs (nat_of_int t)).ph in
-  let stepn t alt = match step !st (EStep (nat_of_int t, alt)) with Some s -> st := s; true | None -> false in
-  (* advance thread t through its internal steps until pred holds; gives up after a bound *)
-  let advance t pred what =
-    let n = ref 0 in
-    while not (pred (phase_of t)) && !n < 64 && !err = "" do
-      if not (stepn t false) then (if not (stepn t true) then fail (Printf.sprintf "blocked:t%d:%s" t what));
-      incr n
+  let nthreads_of trace = List.fold_left (fun m e -> max m (e.th + 1)) (nw + 2) trace in
+  let attempt trace =
+  let nthreads = nthreads_of trace in
+    (* programs reconstructed from the case (call structure of the writers) and the trace (frames per message; for the
+       pinger, the closer and the library's own goroutines: one call per acquisition of writeFrameMu) *)
+    let progs = Array.make nthreads [] in
+    for t = 0 to nthreads - 1 do
+      if t < nw then begin
+        let fr = List.filter_map (fun e -> if e.th = t && e.evk = 5 then Some (e.a, e.b) else None) trace in
+        let calls = ref [] and cur = ref 0 in
+        List.iter (fun (opc, fin) -> if opc <= 2 then (if fin = 1 then (calls := CMsg (nat_of_int !cur, O) :: !calls; cur := 0) else incr cur)) fr;
+        if !cur > 0 then calls := CMsg (nat_of_int (!cur + 1), O) :: !calls;   (* a message cut off before its final frame *)
+        let l = List.rev !calls in
+        let extra = max 0 (List.length (List.nth plans t) - List.length l) in
+        progs.(t) <- l @ List.init extra (fun _ -> CMsg (O, O))
+      end else begin
+        let calls = ref [] and pending = ref false and kind = ref (-1) in
+        (* a Close frame (or a refused, unidentified frame) by the user's closer is Close; by a goroutine of the library it is the echo of the peer's Close *)
+        let flush () = if !pending then begin
+            (* the user's closer: its first acquisition is the Close frame; a later one without a frame is the echo of the peer's
+               Close frame attempted by Close itself while it waits for the handshake, refused by the close-sent flag: no call *)
+            if t = nw + 1 && !kind < 0 && !calls <> [] then ()
+            else calls := (if !kind = 9 || !kind = 10 then CPing O else if t = nw + 1 then CClose O else CEcho O) :: !calls;
+            pending := false; kind := -1 end in
+        List.iter (fun e -> if e.th = t then begin
+          if e.evk = 1 && e.mu = 3 then (flush (); pending := true)
+          else if e.evk = 5 then kind := e.a
+          else if e.evk = 2 && e.mu = 3 then flush ()
+        end) trace;
+        flush ();
+        progs.(t) <- List.rev !calls
+      end
     done;
-    if not (pred (phase_of t)) then fail (Printf.sprintf "cannot-reach:t%d:%s" t what) in
-  (* The hooks record an event shortly AFTER the action: the connection may already be closed (observed by another goroutine)
-     a little before its Closed event appears in the trace.  When the library behaves as if the connection were closed and a
-     Closed event is still to come, the model performs that close now and the later event is skipped. *)
-  let tr_list = Array.of_list trace in
-  let closed_consumed = ref false in
-  let do_close t =
-    (match phase_of t with
-     | DoClose -> ignore (stepn t false)
-     | _ ->
-       let saved = !st in
-       let ok = ref false and n = ref 0 in
-       while not !ok && !n < 8 do
-         (match phase_of t with DoClose -> ok := true | Idle | Unlock _ | FailFrame _ -> if not (stepn t false) then n := 8 | _ -> n := 8);
-         incr n
-       done;
-       if !ok then ignore (stepn t false)
-       else begin st := saved; (match step !st EClose with Some s -> st := s | None -> ()) end) in
-  let ensure_closed i =
-    if not !st.closed && not !closed_consumed then begin
-      let j = ref (i + 1) in
-      while !j < Array.length tr_list && tr_list.(!j).evk <> 4 do incr j done;
-      if !j < Array.length tr_list then (closed_consumed := true; do_close tr_list.(!j).th)
+    (* a goroutine that closed the connection without writing a Close frame first performs CCloseNow (user CloseNow / Close whose frame was refused) *)
+    let st = ref (init (role = Client) (fun t -> let t = int_of_nat t in if t < nthreads then progs.(t) else [])) in
+    let err = ref "" in
+    let fail m = if !err = "" then err := m in
+    let phase_of t = (!st.thrs (nat_of_int t)).ph in
+    let stepn t alt = match step !st (EStep (nat_of_int t, alt)) with Some s -> st := s; true | None -> false in
+    (* advance thread t through its internal steps until pred holds; gives up after a bound *)
+    let advance t pred what =
+      let n = ref 0 in
+      while not (pred (phase_of t)) && !n < 64 && !err = "" do
+        if not (stepn t false) then (if not (stepn t true) then fail (Printf.sprintf "blocked:t%d:%s" t what));
+        incr n
+      done;
+      if not (pred (phase_of t)) then fail (Printf.sprintf "cannot-reach:t%d:%s" t what) in
+    (* The hooks record an event shortly AFTER the action: the connection may already be closed (observed by another goroutine)
+       a little before its Closed event appears in the trace.  When the library behaves as if the connection were closed and a
+       Closed event is still to come, the model performs that close now and the later event is skipped. *)
+    let tr_list = Array.of_list trace in
+    let closed_consumed = ref false in
+    let do_close t =
+      (match phase_of t with
+       | DoClose -> ignore (stepn t false)
+       | _ ->
+         let saved = !st in
+         let ok = ref false and n = ref 0 in
+         while not !ok && !n < 8 do
+           (match phase_of t with DoClose -> ok := true | Idle | Unlock _ | FailFrame _ -> if not (stepn t false) then n := 8 | _ -> n := 8);
+           incr n
+         done;
+         if !ok then ignore (stepn t false)
+         else begin st := saved; (match step !st EClose with Some s -> st := s | None -> ()) end) in
+    let ensure_closed i =
+      if not !st.closed && not !closed_consumed then begin
+        let j = ref (i + 1) in
+        while !j < Array.length tr_list && tr_list.(!j).evk <> 4 do incr j done;
+        if !j < Array.length tr_list then (closed_consumed := true; do_close tr_list.(!j).th)
+      end in
+    List.iteri (fun i e ->
+      if !err = "" then begin
+        let t = e.th in
+        match e.evk, e.mu with
+        | 1, _ when !st.closed && (e.mu = 1 || e.mu = 3) ->
+          (* after the close a lock may still be taken and given back at once (the hook precedes the closed re-check): no effect.
+             Let the thread run into its failure if it can; otherwise ignore the event *)
+          let saved = !st in
+          let want = (fun p -> match p, e.mu with WantMsg _, 1 -> true | WantFrame _, 3 -> true | _ -> false) in
+          let n = ref 0 in
+          while not (want (phase_of t)) && !n < 8 && (stepn t false || stepn t true) do incr n done;
+          if want (phase_of t) then ignore (stepn t false || stepn t true) else st := saved
+        | 1, 1 -> (* msgWriter.mu acquired (recorded before the closed re-check) *)
+          advance t (function WantMsg _ -> true | _ -> false) "lock-msg";
+          if !err = "" && not (stepn t false) then begin
+            ensure_closed i;
+            if not (stepn t false) && not (stepn t true) then fail (Printf.sprintf "model-blocks:t%d:lock-msg" t)
+          end
+        | (1 | 2), 3 when (match phase_of t with DoClose -> true | _ -> false) -> ()   (* Close, waiting for the handshake: the refused echo *)
+        | 1, 3 -> (* writeFrameMu acquired (recorded before the closed re-check) *)
+          advance t (function WantFrame _ -> true | _ -> false) "lock-frame";
+          if !err = "" && not (stepn t false) then begin
+            ensure_closed i;
+            if not (stepn t false) && not (stepn t true) then fail (Printf.sprintf "model-blocks:t%d:lock-frame" t)
+          end
+        | 6, _ when e.a = 1 && e.b = 0 -> (* writeFrame re-armed with Background: the frame was written completely *)
+          (match phase_of t with Emit _ -> ignore (stepn t false) | _ -> ())
+        | 6, _ when e.a = 1 && e.b = 1 -> (* writeFrame passed `select { <-closed | writeTimeout <- ctx }`: the model's Check step *)
+          (match phase_of t with Check _ -> ignore (stepn t false) | _ -> ())
+        | 5, _ -> (* writeFrame starts writing *)
+          (match phase_of t with Check _ -> ignore (stepn t false) | _ -> ());
+          (match phase_of t with
+           | Emit _ -> ()
+           | FailFrame _ when !st.closed -> ()     (* the connection was closed between the library's check and this point: the write fails in both *)
+           | _ -> fail (Printf.sprintf "model-refuses-frame:t%d:opc%d" t e.a))
+        | 2, 3 -> (* writeFrameMu released *)
+          (match phase_of t with
+           | Emit _ -> ignore (stepn t false); (match phase_of t with Unlock _ | FailFrame _ -> ignore (stepn t false) | _ -> fail "unlock-frame-emit")
+           | Check _ ->
+             (* the library gave the lock up without writing: it saw the connection closed or the Close frame sent *)
+             if not !st.closed && not !st.close_sent then ensure_closed i;
+             ignore (stepn t false);
+             (match phase_of t with FailFrame _ -> ignore (stepn t false) | _ -> fail (Printf.sprintf "model-accepts-frame-the-library-refused:t%d" t))
+           | Unlock _ | FailFrame _ -> ignore (stepn t false)
+           | _ -> ())  (* unlock of a lock not held (deferred unlock after a failed lock): no effect *)
+        | 2, 1 -> (match phase_of t with
+                   | EndMsg -> ignore (stepn t false)
+                   | WantFrame (FData, _, _, _) when !st.close_sent && !st.msg_mu = Some (nat_of_int t) -> ignore (stepn t true)   (* refused through the compressor's sticky error *)
+                   | WantFrame (FData, _, _, _) when !st.msg_mu = Some (nat_of_int t) ->
+                     (* the library gave the message lock back without having taken the frame lock: it saw the connection closed
+                        (at the re-check after the acquisition, or while waiting for the frame lock) although the Closed event is
+                        still to come in the trace *)
+                     ensure_closed i; ignore (stepn t true)
+                   | _ -> ())
+        | 4, _ -> if !closed_consumed then closed_consumed := false else do_close t
+        | 3, 3 -> (match phase_of t with ForceFrame -> if not (stepn t false) then fail (Printf.sprintf "model-blocks:t%d:forcelock-frame" t) | _ -> ())
+        | _ -> ()
+      end) trace;
+    (* the frames the model put on the wire, in order, against the frames the library started, in order *)
+    let mframes = List.filter_map (fun (e : wev) -> if int_of_nat e.e_part = 0 then Some (int_of_nat e.e_tid, (match e.e_kind with FData -> 0 | FPing -> 9 | FClose -> 8), if e.e_fin then 1 else 0) else None) !st.wire in
+    let tr_arr = Array.of_list trace in
+    let first_closed = (let r = ref max_int in Array.iteri (fun i e -> if e.evk = 4 && i < !r then r := i) tr_arr; !r) in
+    let unlocked_before_close i t =
+      let r = ref false and j = ref (i + 1) in
+      while !j < Array.length tr_arr && not !r && !j < first_closed do
+        (let e = tr_arr.(!j) in if e.th = t && ((e.evk = 2 && e.mu = 3) || (e.evk = 6 && e.a = 1 && e.b = 0)) then r := true); incr j
+      done; !r in
+    let iframes = List.concat (List.mapi (fun i e ->
+      if e.evk = 5 && unlocked_before_close i e.th then [(e.th, (if e.a = 8 then 8 else if e.a >= 9 then 9 else 0), (if e.a >= 8 then 1 else e.b))] else []) trace) in
+    if !err = "" && mframes <> iframes then fail (Printf.sprintf "frame-order-differs:model=%d:impl=%d" (List.length mframes) (List.length iframes));
+    (!err, !st, List.length iframes) in
+  (* The Closed event is recorded AFTER close(c.closed) took effect: other goroutines may have acted on the closed connection
+     (given a lock back, failed a write) before it appears in the trace.  The trace is accepted when it is an execution of the
+     model with the Closed event at its recorded position or at SOME earlier position. *)
+  let (err, st, niframes, moved) =
+    let (e0, s0, n0) = attempt trace in
+    if e0 = "" then (e0, s0, n0, 0) else begin
+      let arr = Array.of_list trace in
+      let c = (let r = ref (-1) in Array.iteri (fun i e -> if e.evk = 4 && !r < 0 then r := i) arr; !r) in
+      if c < 0 then (e0, s0, n0, 0) else begin
+        let best = ref None and j = ref (c - 1) in
+        while !best = None && !j >= 0 do
+          let l = Array.to_list arr in
+          let without = List.filteri (fun i _ -> i <> c) l in
+          let tr2 = List.concat (List.mapi (fun i e -> if i = !j then [arr.(c); e] else [e]) without) in
+          (match attempt tr2 with (e, s, n) when e = "" -> best := Some (s, n, c - !j) | _ -> ());
+          decr j
+        done;
+        match !best with Some (s, n, d) -> ("", s, n, d) | None -> (e0, s0, n0, 0)
+      end
     end in
-  List.iteri (fun i e ->
-    if !err = "" then begin
-      let t = e.th in
-      match e.evk, e.mu with
-      | 1, _ when !st.closed && (e.mu = 1 || e.mu = 3) ->
-        (* after the close a lock may still be taken and given back at once (the hook precedes the closed re-check): no effect.
-           Let the thread run into its failure if it can; otherwise ignore the event *)
-        let saved = !st in
-        let want = (fun p -> match p, e.mu with WantMsg _, 1 -> true | WantFrame _, 3 -> true | _ -> false) in
-        let n = ref 0 in
-        while not (want (phase_of t)) && !n < 8 && (stepn t false || stepn t true) do incr n done;
-        if want (phase_of t) then ignore (stepn t false || stepn t true) else st := saved
-      | 1, 1 -> (* msgWriter.mu acquired (recorded before the closed re-check) *)
-        advance t (function WantMsg _ -> true | _ -> false) "lock-msg";
-        if !err = "" && not (stepn t false) then begin
-          ensure_closed i;
-          if not (stepn t false) && not (stepn t true) then fail (Printf.sprintf "model-blocks:t%d:lock-msg" t)
-        end
-      | 1, 3 -> (* writeFrameMu acquired (recorded before the closed re-check) *)
-        advance t (function WantFrame _ -> true | _ -> false) "lock-frame";
-        if !err = "" && not (stepn t false) then begin
-          ensure_closed i;
-          if not (stepn t false) && not (stepn t true) then fail (Printf.sprintf "model-blocks:t%d:lock-frame" t)
-        end
-      | 6, _ when e.a = 1 && e.b = 1 -> (* writeFrame passed `select { <-closed | writeTimeout <- ctx }`: the model's Check step *)
-        (match phase_of t with Check _ -> ignore (stepn t false) | _ -> ())
-      | 5, _ -> (* writeFrame starts writing *)
-        (match phase_of t with Check _ -> ignore (stepn t false) | _ -> ());
-        (match phase_of t with
-         | Emit _ -> ()
-         | FailFrame _ when !st.closed -> ()     (* the connection was closed between the library's check and this point: the write fails in both *)
-         | _ -> fail (Printf.sprintf "model-refuses-frame:t%d:opc%d" t e.a))
-      | 2, 3 -> (* writeFrameMu released *)
-        (match phase_of t with
-         | Emit _ -> ignore (stepn t false); (match phase_of t with Unlock _ | FailFrame _ -> ignore (stepn t false) | _ -> fail "unlock-frame-emit")
-         | Check _ ->
-           (* the library gave the lock up without writing: it saw the connection closed or the Close frame sent *)
-           if not !st.closed && not !st.close_sent then ensure_closed i;
-           ignore (stepn t false);
-           (match phase_of t with FailFrame _ -> ignore (stepn t false) | _ -> fail (Printf.sprintf "model-accepts-frame-the-library-refused:t%d" t))
-         | Unlock _ | FailFrame _ -> ignore (stepn t false)
-         | _ -> ())  (* unlock of a lock not held (deferred unlock after a failed lock): no effect *)
-      | 2, 1 -> (match phase_of t with
-                 | EndMsg -> ignore (stepn t false)
-                 | WantFrame (FData, _, _, _) when !st.close_sent && !st.msg_mu = Some (nat_of_int t) -> ignore (stepn t true)   (* refused through the compressor's sticky error *)
-                 | _ -> ())
-      | 4, _ -> if !closed_consumed then closed_consumed := false else do_close t
-      | 3, 3 -> (match phase_of t with ForceFrame -> if not (stepn t false) then fail (Printf.sprintf "model-blocks:t%d:forcelock-frame" t) | _ -> ())
-      | _ -> ()
-    end) trace;
-  (* the frames the model put on the wire, in order, against the frames the library started, in order *)
-  let mframes = List.filter_map (fun (e : wev) -> if int_of_nat e.e_part = 0 then Some (int_of_nat e.e_tid, (match e.e_kind with FData -> 0 | FPing -> 9 | FClose -> 8), if e.e_fin then 1 else 0) else None) !st.wire in
-  let tr_arr = Array.of_list trace in
-  let first_closed = (let r = ref max_int in Array.iteri (fun i e -> if e.evk = 4 && i < !r then r := i) tr_arr; !r) in
-  let unlocked_before_close i t =
-    let r = ref false and j = ref (i + 1) in
-    while !j < Array.length tr_arr && not !r && !j < first_closed do
-      (let e = tr_arr.(!j) in if e.th = t && e.evk = 2 && e.mu = 3 then r := true); incr j
-    done; !r in
-  let iframes = List.concat (List.mapi (fun i e ->
-    if e.evk = 5 && unlocked_before_close i e.th then [(e.th, (if e.a = 8 then 8 else if e.a >= 9 then 9 else 0), (if e.a >= 8 then 1 else e.b))] else []) trace) in
-  if !err = "" && mframes <> iframes then fail (Printf.sprintf "frame-order-differs:model=%d:impl=%d" (List.length mframes) (List.length iframes));
+  let err = ref err and st = ref st in
+  let nthreads = nthreads_of trace in
+  ignore nthreads;
   let props = Printf.sprintf "%b,%b,%b" (frames_atomic None !st.wire) (msgs_unmixed None !st.wire) (after_close None !st.wire) in
   (* goroutines (C20): the timeout goroutine (started in newConn, before tracing) and every CloseRead goroutine must have exited *)
   let crstarts = List.length (List.filter (fun e -> e.evk = 7 && e.a = 1) trace) and crexits = List.length (List.filter (fun e -> e.evk = 8 && e.a = 1) trace)
   and tlexits = List.length (List.filter (fun e -> e.evk = 8 && e.a = 0) trace) in
   let gor = if tlexits = 1 && crstarts = crexits then "ok" else Printf.sprintf "leak:timeoutLoop-exits=%d:closeRead=%d/%d" tlexits crexits crstarts in
-  Printf.sprintf "judge=%s replay=%s modelprops=%s frames=%d goroutines=%s" verdict (if !err = "" then "ok" else !err) props (List.length iframes) gor
+  Printf.sprintf "judge=%s replay=%s modelprops=%s frames=%d goroutines=%s moved=%d" verdict (if !err = "" then "ok" else !err) props niframes gor moved
 
 (* ---- suites netconn / wsjson ---- *)
 let nres_str = function NData d -> Printf.sprintf "%d:nil" (List.length d) | NEOF -> "eof" | NErrClose c -> Printf.sprintf "close:%d" (int_of_z c)
